@@ -39,6 +39,8 @@ class Contract:
 class Unit:
     """a real function in /repo put under contract"""
 
+    variant = None
+
     def __init__(self, path, qual, contract, loops=None, props=(), setup=None, holes=None, yield_ensures=(),
                  canaries=(), iter_posts=None, path_hooks=None, ghost_init=None, notes="", hints=None, assumes=()):
         self.path = path
@@ -59,6 +61,8 @@ class Unit:
         self.reveal = ()
         self.ghost_params = ()
         self.local_types = {}
+        self.ghost_const = ()
+        self.ghost_havoc = None
         self.stmt_hints = []  # [(source-prefix, {snapshot name: expr}, [lemma instance exprs])]
         self.src_info = None
 
@@ -116,8 +120,9 @@ class Registry:
         self.lemmas = {}
 
     # ---------------- declarations
-    def unit(self, u):
-        self.units[u.path + "::" + u.qual] = u
+    def unit(self, u, variant=None):
+        u.variant = variant
+        self.units[u.path + "::" + u.qual + ("#" + variant if variant else "")] = u
         self.contracts[u.qual] = u.contract
         self.contracts[u.qual.split(".")[-1]] = u.contract
         return u
@@ -232,6 +237,10 @@ class Registry:
         return self.classes.get(rname, {}).get("__bases__", ())
 
     def class_names(self, cls):
+        if isinstance(cls, Func) and cls.label.startswith("builtin:"):
+            return [cls.label[8:]]
+        if isinstance(cls, Conc) and hasattr(cls.v, "__pyvc_classname__"):
+            return [cls.v.__pyvc_classname__]
         if isinstance(cls, Conc):
             v = cls.v
             if isinstance(v, tuple):
@@ -239,6 +248,8 @@ class Registry:
                 for x in v:
                     out += self.class_names(x)
                 return out
+            if isinstance(v, Exc) or (isinstance(v, str)):
+                return [v if isinstance(v, str) else v.cls]
             if isinstance(v, str):
                 return [v]
             if isinstance(v, type):
@@ -299,8 +310,17 @@ class Registry:
         return None
 
     def havoc_ghost_for_loop(self, sx, body, st):
-        if self.ghost_loop_havoc is not None:
-            self.ghost_loop_havoc(sx, body, st)
+        """ghost state at a loop head: everything is havocked except what the unit declares loop-constant
+        (unit.ghost_const) -- invariants must carry whatever is needed"""
+        u = self.cur_unit
+        const = set(getattr(u, "ghost_const", ()) or ())
+        hook = getattr(u, "ghost_havoc", None)
+        if hook is not None:
+            return hook(sx, body, st)
+        for g, v in list(st.ghost.items()):
+            if g.startswith("__") or g in const or not isinstance(v, Val) or isinstance(v, (Ref, Func, Conc)) or v.term is None:
+                continue
+            st.ghost[g] = sx.fresh(v.ty, "g_" + g, st)
 
     def loop_spec(self, sx, stmt, ordinal):
         u = self.cur_unit
@@ -429,7 +449,19 @@ class Registry:
 
         return deco
     json_setitem = json_method = set_len = set_iter = set_of_json = sorted_model = sort_model = _none
-    value_method = str_of = bytes_of = getattr_dynamic = binop = comprehension_over = star_call = _none
+    str_of = bytes_of = getattr_dynamic = binop = comprehension_over = star_call = _none
+
+    def value_method(self, sx, obj, attr, args, kwargs, st, node):
+        t = getattr(obj, "ty", None)
+        if isinstance(t, V.Rec):
+            h = self.hooks.get(("method", t.rname))
+            if h is not None:
+                return h(sx, obj, attr, args, kwargs, st, node)
+        if t is not None:
+            h = self.hooks.get(("method", repr(t)))
+            if h is not None:
+                return h(sx, obj, attr, args, kwargs, st, node)
+        return None
     join_model = split_model = format_model = json_iter = _none
 
     def call_value(self, sx, f, args, kwargs, st, node):
